@@ -480,6 +480,25 @@ func (p *cparser) parsePrimary() *CExpr {
 			p.expect(")")
 			return e
 		}
+		if t.text == "[" && p.peek().kind == "op" && p.peek().text == "]" {
+			// a slice type used as an argument of typeis/unbox/zero: []T, []*T, []pkg.T
+			p.next()
+			name := "[]"
+			for p.peek().kind == "op" && p.peek().text == "*" {
+				p.next()
+				name += "*"
+			}
+			id := p.next()
+			if id.kind != "id" {
+				p.fail("type name expected after []")
+			}
+			name += id.text
+			for p.peek().kind == "op" && p.peek().text == "." {
+				p.next()
+				name += "." + p.next().text
+			}
+			return &CExpr{Op: "id", Name: name, Pos: t.pos}
+		}
 	}
 	p.fail("unexpected %q", t.text)
 	return nil
